@@ -66,6 +66,7 @@ func init() {
 //	form "eq"      (= s "<chars>")
 //	     "nested"  (and b (= s "<chars>") (> a 1))     literal inside an indented sub-expression
 //	     "list"    (in s ("x" "<chars>"))
+//	     "mixed", "mixed-rev"  the literal among integer, Boolean and string constants that print alike
 func VerifC13Literal(args []string) {
 	n := 0
 	for _, c := range args[0] {
@@ -85,6 +86,11 @@ func VerifC13Literal(args []string) {
 		src = "(and b (= s \"" + lit + "\") (> a 1))"
 	case "list":
 		src = "(in s (\"x\" \"" + lit + "\"))"
+	case "mixed":
+		// the literal next to constants of other types whose printed form it may share (5 / "5", true / "true")
+		src = "(and (= a 5) (= s \"" + lit + "\") (= b true) (= t \"true\") (= (+ a 1) 6))"
+	case "mixed-rev":
+		src = "(and (= s \"" + lit + "\") (= a 5) (= t \"true\") (= b true) (in s (\"x\" \"" + lit + "\")) (in a (5 6)))"
 	default:
 		src = "(= s \"" + lit + "\")"
 	}
@@ -93,6 +99,7 @@ func VerifC13Literal(args []string) {
 		conf.VariableKeyMap["s"] = 1
 		conf.VariableKeyMap["a"] = 2
 		conf.VariableKeyMap["b"] = 3
+		conf.VariableKeyMap["t"] = 4
 		for i, o := range vfOptimizations {
 			conf.CompileOptions[o] = opts[i] == '1'
 		}
@@ -105,7 +112,7 @@ func VerifC13Literal(args []string) {
 	vfReach("literal-dumped")
 	vfAssert(err2 == nil && e2 != nil, "Dump output with a string literal does not compile")
 	vfAssert(Dump(e2) == text, "dumping the recompiled program does not reproduce the text (string literal)")
-	vals := map[string]Value{"s": lit, "a": int64(5), "b": true}
+	vals := map[string]Value{"s": lit, "a": int64(5), "b": true, "t": "true"}
 	r1, rerr1 := e.Eval(&Ctx{VariableFetcher: MapVarFetcher(vals)})
 	r2, rerr2 := e2.Eval(&Ctx{VariableFetcher: MapVarFetcher(vals)})
 	vfAssert(rerr1 == nil && r1 == true, "harness: the original program recognises its own literal")
